@@ -67,7 +67,10 @@ def amuset_case(draw):
     # variant, outside the domain of the cross approximation (see C15), which therefore only gets the floating-point forms
     form = draw(c15.DATA_FORM if variant == 'hosvd' else st.sampled_from(['float', 'float', 'strided', 'fortran', 'readonly']))
     return {'d': d, 'm': m, 'phi': phi, 'pairs': pairs, 'seed': draw(gen.SEED), 'variant': variant,
-            'threshold': draw(st.sampled_from([0, 1e-12, 1e-10])), 'as_list': draw(st.booleans()), 'data_form': form}
+            'threshold': draw(st.sampled_from([0, 1e-12, 1e-10])), 'as_list': draw(st.booleans()), 'data_form': form,
+            # the optional extra outputs of the HOSVD variant (eigenfunctions at the snapshots, singular tensors) must not change
+            # the two documented ones
+            'extras': draw(st.sampled_from(['none', 'none', 'ef', 'st', 'both']))}
 
 
 def reference(Psi, xi, yi):
@@ -100,7 +103,15 @@ def run(c, x, phi, xi_list, yi_list):
     if c['variant'] == 'hosvd':
         if c['seed'] % 3 == 0:
             kw['max_rank'] = 1000            # a cap above every rank is a no-op
-        return tedmd.amuset_hosvd(x, xi_list, yi_list, phi, threshold=c['threshold'], **kw)
+        extras = c.get('extras', 'none')
+        if extras in ('ef', 'both'):
+            kw['ef_tf'] = True
+        if extras in ('st', 'both'):
+            kw['st_tf'] = True
+        out = tedmd.amuset_hosvd(x, xi_list, yi_list, phi, threshold=c['threshold'], **kw)
+        require(isinstance(out, tuple) and len(out) == {'none': 2, 'ef': 3, 'st': 4, 'both': 5}[extras], 'batch_shape',
+                'amuset_hosvd returned %d outputs with extras=%s' % (len(out) if isinstance(out, tuple) else -1, extras))
+        return out[0], out[1]
     return tedmd.amuset_hocur(x, xi_list, yi_list, phi, max_rank=1000, multiplier=3, **kw)
 
 
@@ -150,6 +161,8 @@ def body(c):
         lab.add('multi_mode')
     if c.get('data_form', 'float') != 'float':
         lab.add('data_' + c['data_form'])
+    if c['variant'] == 'hosvd' and c.get('extras', 'none') != 'none':
+        lab.add('extra_outputs_' + c['extras'])
     if any(s_['family'] in c15.USER_FAMS for f in c['phi'] for s_ in f):
         lab.add('user_defined_function')
     for j, ((lam, K, k), ev, et) in enumerate(zip(refs, evs, ets)):
